@@ -328,8 +328,9 @@ Definition py_get (v k dflt : pyval) : res pyval :=
   | POther _ => Err EUnmodelled
   | _ => Err EAttr
   end.
+(* d.keys(): a view; `in` and iteration on it behave as on the dictionary itself (unhashable operands included) *)
 Definition py_keys (v : pyval) : res pyval :=
-  match v with PDict kv => Ok (PList (map (fun p => PStr (fst p)) kv)) | POther _ => Err EUnmodelled | _ => Err EAttr end.
+  match v with PDict kv => Ok (PDict kv) | POther _ => Err EUnmodelled | _ => Err EAttr end.
 
 Definition one_char (p : pyval) : option ascii :=
   match p with PStr (String c EmptyString) => Some c | _ => None end.
